@@ -155,4 +155,44 @@ def r4_cancel_detach(ctx):
     ctx.ob("C17.R4", "task-abort-wakes", T + "Task::wake" in prog.may_reach([ta.nkey]), "Task::abort wakes the task so that its wrapper observes the flag", loc=ta.loc())
 
 
-RULES = [("C17.R1", r1_poll_loops), ("C17.R2", r2_wake_records), ("C17.R3", r3_result_then_wake), ("C17.R4", r4_cancel_detach)]
+def waker_registrations(prog, crates):
+    """[(body, [clone sites], [Pending construction sites])] for every body (closures included) that clones the waker of
+    the Context it was polled with and itself answers Poll::Pending."""
+    out = []
+    for b in prog.all_bodies(crates):
+        clones = []
+        for s, t in b.calls():
+            if not any(c.endswith("task::wake::Waker as core::clone::Clone>::clone") for c in b.callees_of_call(t, passed=False)):
+                continue
+            labs = FlowSlicer(b, control=False).operand_labels(t["args"][0], s)
+            if any(l.startswith("call:") and l.endswith("::waker") and "Context" in l for l in labs):
+                clones.append(s)
+        if not clones:
+            continue
+        pend = [s for s, st in b.assigns() if st["rv"]["k"] == "aggr" and st["rv"].get("variant") == "Pending" and "Poll" in str(st["rv"].get("adt", ""))]
+        if pend:
+            out.append((b, clones, pend))
+    return out
+
+
+def fresh_waker_rule(ctx, rule, crates, floor):
+    """Future contract: only the waker of the most recent poll has to be woken, so a future that registers wakers must
+    register the current one on every path on which it answers Pending — an `if slot.is_none()` short-cut leaves the waker
+    of an earlier poller in place and the task that awaits now is never woken (reported as a deadlock that is none)."""
+    regs = waker_registrations(ctx.prog, crates)
+    ctx.floor(rule, "futures that register the polling task's waker", len(regs), floor)
+    for b, clones, pend in regs:
+        cs = set(clones)
+        for i, p in enumerate(pend):
+            w = b.path_exists(None, lambda x, p=p: x == p, lambda x: x in cs)
+            ctx.ob(rule, "fresh-waker-on-pending|%s|#%d" % (b.nkey, i), w is None,
+                   "`%s` registers the current Context's waker on every path to this Poll::Pending" % b.nkey if w is None else
+                   "`%s` can answer Poll::Pending without registering the waker of the task polling now: a waker stored by an earlier poller stays in "
+                   "place and the current awaiter is never woken" % b.nkey, loc=b.loc(p))
+
+
+def r5_fresh_waker(ctx):
+    fresh_waker_rule(ctx, "C17.R5", {"shuttle_std", "shuttle"}, 1)
+
+
+RULES = [("C17.R1", r1_poll_loops), ("C17.R2", r2_wake_records), ("C17.R3", r3_result_then_wake), ("C17.R4", r4_cancel_detach), ("C17.R5", r5_fresh_waker)]
